@@ -195,7 +195,8 @@ KeyWrap(st) == st.op = "UWrap" /\ st.a[1] = <<"uKeyWrap">>
 StepU(st, sl) ==
   (IF st.op \in SUnsafeOps /\ ~KeyWrap(st) THEN WordsIn(st.s) ELSE {})
   \cup PartsU(st.parts)
-  \cup (IF st.op = "GoWrap" \/ (st.op = "ULeaf" /\ st.a[1] # <<"uSafeDetLeaf">>) THEN WordsInAll(st.a) ELSE {})
+  \cup (IF st.op = "GoWrap" \/ (st.op = "ULeaf" /\ st.a[1] \notin {<<"uSafeDetLeaf">>, <<"uKeyLeaf">>})
+        THEN WordsInAll(st.a) ELSE {})
   \cup (IF st.op = "WithContextTags"
         THEN UNION {WordsIn(st.a[i]) : i \in {j \in Even(st.a) : st.a[j] = <<>> \/ st.a[j][1] # "SAFEV"}} ELSE {})
   \cup (IF st.op \in {"OsPathError", "OsLinkError"} THEN UNION {WordsIn(st.a[i]) : i \in 2..Len(st.a)} ELSE {})
@@ -210,7 +211,7 @@ StepS(st) ==
         THEN UNION {WordsIn(st.a[i]) : i \in Odd(st.a) \cup {j \in Even(st.a) : st.a[j] # <<>> /\ st.a[j][1] = "SAFEV"}}
         ELSE {})
   \* (what a type returns from SafeDetails() is safe by its own declaration)
-  \cup (IF st.op = "ULeaf" /\ st.a[1] = <<"uSafeDetLeaf">> THEN WordsInAll(Tail(st.a)) ELSE {})
+  \cup (IF st.op = "ULeaf" /\ st.a[1] \in {<<"uSafeDetLeaf">>, <<"uKeyLeaf">>} THEN WordsInAll(Tail(st.a)) ELSE {})
   \cup (IF st.op \in {"OsPathError", "OsLinkError"} /\ Len(st.a) >= 1 THEN WordsIn(st.a[1]) ELSE {})
 \* some string argument of the step is not regular text (C01, C09, C10 quantify over regular text)
 StepH(st) ==
@@ -245,7 +246,10 @@ TaintOf(st, sl, tn, res) ==
         s |-> StepS(st) \cup ExtraS(st, sl, tn) \cup UNION {tn[i].s : i \in src},
         \* (C12 does not list a user type's key marker or own SafeDetails() strings among
         \* what reports must retain: they are safe where they appear, nothing more)
-        r |-> (IF KeyWrap(st) \/ (st.op = "ULeaf" /\ st.a[1] = <<"uSafeDetLeaf">>) THEN {} ELSE StepS(st))
+        \* (of context tags C12 lists the keys; a value marked safe is safe where it appears)
+        r |-> (IF KeyWrap(st) \/ (st.op = "ULeaf" /\ st.a[1] \in {<<"uSafeDetLeaf">>, <<"uKeyLeaf">>}) THEN {}
+               ELSE IF st.op = "WithContextTags" THEN UNION {WordsIn(st.a[i]) : i \in Odd(st.a)}
+               ELSE StepS(st))
               \cup UNION {tn[i].r : i \in src},
         h |-> StepH(st) \/ \E i \in src : tn[i].h,
         mk |-> StepMk(st) \/ \E i \in src : tn[i].mk,
